@@ -48,6 +48,7 @@ func (t *Timer) arm(d Duration) {
 	t.stop = vsched.AfterFunc(d, t.site, func() {
 		select {
 		case c <- Now():
+			vsched.EnvSend(c)
 		default:
 		}
 	})
@@ -120,6 +121,7 @@ func (t *Ticker) arm() {
 		}
 		select {
 		case t.c <- Now():
+			vsched.EnvSend(t.c)
 		default:
 		}
 		t.arm()
